@@ -25,6 +25,20 @@ type Result struct {
 	st        *store.ImmuStore
 }
 
+// retry: the chunk cache of multiapp can make a ReadAt fail spuriously ("key not found") when a
+// concurrent reader (the indexer) evicts the chunk between its insertion and its lookup
+// (appendableFor); that is not a durability matter, so reads are repeated before a failure counts.
+func retry(f func() error) error {
+	var err error
+	for i := 0; i < 4; i++ {
+		if err = f(); err == nil {
+			return nil
+		}
+		time.Sleep(time.Duration(i+1) * time.Millisecond)
+	}
+	return err
+}
+
 func (r *Result) violf(f string, a ...any) { r.Viol = append(r.Viol, fmt.Sprintf(f, a...)) }
 
 func sampleIDs(rng *rand.Rand, max uint64, n int) []uint64 {
@@ -94,7 +108,7 @@ func CheckImage(dir string, cfg Cfg, refs map[uint64]*txRef, maxAcked uint64, re
 	var lastHdr *store.TxHeader
 	tx := store.NewTx(maxTxEntries, maxKeyLen)
 	for id := uint64(1); id <= cid; id++ {
-		if err := st.ReadTx(id, false, tx); err != nil {
+		if err := retry(func() error { return st.ReadTx(id, false, tx) }); err != nil {
 			if id <= maxAcked {
 				res.violf("acknowledged tx %d cannot be read after recovery: %v", id, err)
 			} else {
@@ -127,7 +141,8 @@ func CheckImage(dir string, cfg Cfg, refs map[uint64]*txRef, maxAcked uint64, re
 			}
 		}
 		for i, e := range tx.Entries() {
-			v, err := st.ReadValue(e)
+			var v []byte
+			err := retry(func() (e2 error) { v, e2 = st.ReadValue(e); return })
 			l := &last{tx: id}
 			if err != nil {
 				if id <= maxAcked {
@@ -164,7 +179,8 @@ func CheckImage(dir string, cfg Cfg, refs map[uint64]*txRef, maxAcked uint64, re
 		}
 	}()
 	verify := func(what string, src *txRef, tgt *store.TxHeader) {
-		p, err := st.DualProof(src.Hdr, tgt)
+		var p *store.DualProof
+		err := retry(func() (e2 error) { p, e2 = st.DualProof(src.Hdr, tgt); return })
 		if err != nil {
 			proofViol = append(proofViol, fmt.Sprintf("DualProof(%s) cannot be built: %v", what, err))
 			return
@@ -195,7 +211,8 @@ func CheckImage(dir string, cfg Cfg, refs map[uint64]*txRef, maxAcked uint64, re
 		sort.Strings(keys)
 		for _, k := range keys {
 			l := latest[k]
-			vr, err := st.Get(ctx, []byte(k))
+			var vr store.ValueRef
+			err := retry(func() (e2 error) { vr, e2 = st.Get(ctx, []byte(k)); return })
 			if err != nil {
 				res.violf("Get(%s) fails: %v (latest committed value is in tx %d)", k, err, l.tx)
 				continue
@@ -204,7 +221,8 @@ func CheckImage(dir string, cfg Cfg, refs map[uint64]*txRef, maxAcked uint64, re
 				res.violf("Get(%s) returns the value of tx %d, latest committed is tx %d", k, vr.Tx(), l.tx)
 				continue
 			}
-			v, err := vr.Resolve()
+			var v []byte
+			err = retry(func() (e2 error) { v, e2 = vr.Resolve(); return })
 			if err != nil {
 				if l.ok {
 					res.violf("Get(%s): value of tx %d cannot be resolved: %v", k, l.tx, err)
